@@ -13,11 +13,33 @@ from ..source import AnalysisError, FuncInfo, norm, walk_no_nested
 EMITTERS = ("emit_value", "emit_assignment")
 
 
-def _guarded_not_absent(cfg: CFG, nodes: list[int], expr: ast.AST) -> bool:
+def _comprehension_filters(n: ast.AST) -> list[tuple[ast.AST, bool]]:
+    """conditions under which the expression `n` is evaluated inside its statement: filters of enclosing comprehensions and the
+    tests of enclosing conditional expressions (conjunctions split)"""
+    out: list[tuple[ast.AST, bool]] = []
+    cur = getattr(n, "_parent", None)
+    prev = n
+    while cur is not None and not isinstance(cur, (ast.stmt,)):
+        # `a if c else b`: b is evaluated only where c is false, a only where it is true
+        if isinstance(cur, ast.IfExp) and prev is not cur.test:
+            val = prev is cur.body
+            t = cur.test
+            parts = t.values if isinstance(t, ast.BoolOp) and ((isinstance(t.op, ast.And) and val) or (isinstance(t.op, ast.Or) and not val)) else [t]
+            out += [(p, val) for p in parts]
+        if isinstance(cur, (ast.ListComp, ast.SetComp, ast.GeneratorExp, ast.DictComp)) and prev not in [g.iter for g in cur.generators[:1]]:
+            for g in cur.generators:
+                for f in g.ifs:
+                    parts = f.values if isinstance(f, ast.BoolOp) and isinstance(f.op, ast.And) else [f]
+                    out += [(p, True) for p in parts]
+        prev, cur = cur, getattr(cur, "_parent", None)
+    return out
+
+
+def _guarded_not_absent(cfg: CFG, nodes: list[int], expr: ast.AST, extra: list[tuple[ast.AST, bool]] | None = None) -> bool:
     want = ast.dump(expr)
     for x in nodes:
         ok = False
-        for t, val in branch_conditions(cfg, x):
+        for t, val in list(branch_conditions(cfg, x)) + list(extra or []):
             tt, v = t, val
             if isinstance(tt, ast.UnaryOp) and isinstance(tt.op, ast.Not):
                 tt, v = tt.operand, not val
@@ -87,7 +109,7 @@ def check(run: Run) -> None:
                 arg = n.args[0]
                 probe = arg if n.func.id == "emit_value" else ast.Attribute(value=arg, attr="value", ctx=ast.Load())
                 nodes = cfg.node_for_stmt_containing(n)
-                ok = _guarded_not_absent(cfg, nodes, probe)
+                ok = _guarded_not_absent(cfg, nodes, probe, _comprehension_filters(n))
                 why = "guarded by is_absent(...) in the same function"
                 params = [a.arg for a in fi.node.args.args]  # type: ignore[attr-defined]
                 if not ok and isinstance(probe, ast.Attribute) and isinstance(probe.value, ast.Name) and probe.value.id in params and probe.attr == "value":
@@ -117,7 +139,7 @@ def check(run: Run) -> None:
                 if isinstance(n, ast.Call) and isinstance(n.func, ast.Name) and n.func.id == fi.name and n.args and caller is not fi:
                     cfg = cfg or CFG(caller.node)
                     probe = ast.Attribute(value=n.args[0], attr="value", ctx=ast.Load())
-                    ok = _guarded_not_absent(cfg, cfg.node_for_stmt_containing(n), probe)
+                    ok = _guarded_not_absent(cfg, cfg.node_for_stmt_containing(n), probe, _comprehension_filters(n))
                     run.instance("R18.1", caller.module.loc(n), f"{caller.qualname}: caller of {fi.name} filters is_absent({ast.unparse(probe)})", ok=ok)
                     if not ok:
                         run.violation("R18.1", caller.module, caller.qualname, n, f"{fi.name}() is called on a node whose value was not tested with is_absent: an Absent field would not be omitted")
@@ -133,7 +155,7 @@ def check(run: Run) -> None:
                     if a is None:
                         continue
                     cfg = cfg or CFG(caller.node)
-                    ok = _guarded_not_absent(cfg, cfg.node_for_stmt_containing(n), a)
+                    ok = _guarded_not_absent(cfg, cfg.node_for_stmt_containing(n), a, _comprehension_filters(n))
                     run.instance("R18.1", em.loc(n), f"{caller.qualname}: caller of {fi.name} filters is_absent({ast.unparse(a)})", ok=ok)
                     if not ok:
                         run.violation("R18.1", em, caller.qualname, n, f"{fi.name}() emits its argument `{ast.unparse(a)}` and is called here without an is_absent test that skips it: an Absent field would raise or be written out instead of being omitted")
